@@ -557,8 +557,53 @@ def random_family(rng, fid):
         root = vec(root)
     elif c < 0.15:
         root = opt(root)
-    # definitions are emitted in creation order; a namespace override must be unique per (ns, name): names are unique already
-    return {"id": fid, "defs": defs, "root": root, "cls": "plain", "note": "random"}
+    fam = {"id": fid, "defs": defs, "root": root, "cls": "plain", "note": "random"}
+    if has_union_in_union(fam):
+        # e.g. Option<N> where N is a newtype struct over an enum of newtype variants: the derived schema nests unions (D12)
+        fam["cls"] = "union_in_union"
+        fam["note"] = "random (a union directly inside a union, through a newtype struct / pointer)"
+    return fam
+
+
+def produces_union(fam, te, seen=()):
+    """does the type derive to a union node (Option, an enum of newtype variants, or a newtype struct / pointer around one)?"""
+    te = peel(te)
+    if te["k"] == "opt":
+        return True
+    if te["k"] == "ref":
+        d = defs_by_name(fam)[te["d"]]
+        if d["kind"] == "union_enum":
+            return True
+        if d["kind"] == "newtype" and d["rust"] not in seen:
+            return produces_union(fam, d["t"], seen + (d["rust"],))
+    return False
+
+
+def has_union_in_union(fam):
+    found = []
+
+    def walk(te):
+        k = te["k"]
+        if k == "opt" and produces_union(fam, te["t"]):
+            found.append(te)
+        if "t" in te and isinstance(te["t"], dict):
+            walk(te["t"])
+        if k == "ref":
+            for a in te["args"]:
+                walk(a)
+    walk(fam["root"])
+    for d in fam["defs"]:
+        for f in d.get("fields", []):
+            walk(f["t"])
+        if d["kind"] == "newtype":
+            walk(d["t"])
+        if d["kind"] == "union_enum":
+            for v in d["variants"]:
+                if v["t"] is not None:
+                    if produces_union(fam, v["t"]):
+                        found.append(v["t"])
+                    walk(v["t"])
+    return bool(found)
 
 
 # ------------------------------------------------------------------------------------------------ TLC-enumerated shapes
